@@ -31,10 +31,10 @@ def run(tier):
     for data, rows, tmo in ((16, 400, 1), (64, 2000, 1), (1024, 3000, 1000), (16, 400, 3600 * 10**9)):
         scen.append({"strategy": "expand", "data": data, "max": 1 << 16, "mininc": 2, "producers": 1, "rows": rows, "stalled": True, "exptimeout_ns": tmo})
     # free-running
-    for i in range(40 if quick else 1500):
+    for i in range(40 if quick else 400):
         strat = ["expand", "drop", "block"][i % 3]
         scen.append({"strategy": strat, "data": rng.choice([1, 2, 4, 16]), "max": rng.choice([32, 40, 64]), "mininc": rng.choice([1, 2, 4]), "producers": rng.choice([1, 2, 4, 8]),
-                     "rows": rng.choice([50, 200] if quick else [200, 1000, 5000]), "slowsink": rng.choice([0, 0, 20, 100]), "seed": rng.randrange(1 << 30), "perturb": True})
+                     "rows": rng.choice([50, 200] if quick else [200, 1000, 2500]), "slowsink": rng.choice([0, 0, 20, 100]), "seed": rng.randrange(1 << 30), "perturb": True})
     # rows without attributes (empty / nil maps) among the others: they are rows - processed or counted as dropped like any other
     for i in range(9 if quick else 300):
         scen.append({"strategy": ["block", "expand", "drop"][i % 3], "data": rng.choice([2, 4, 16]), "max": 64, "mininc": 2, "producers": rng.choice([1, 2, 4]),
